@@ -1012,3 +1012,75 @@ Proof. unfold waiting_inv. right; right; reflexivity. Qed.
 Theorem resp_parse_segmentation_independent relaxed limit segs :
   segs <> [] -> drive relaxed limit pst0 [] segs = step relaxed limit pst0 (concat segs).
 Proof. intros H. apply (drive_segmentation_independent relaxed limit pst0 [] segs waiting_inv_pst0 H). Qed.
+
+(* ================= 3. the status-line grammar ================= *)
+(* The grammar is stated with explicit literals and byte ranges (RFC 9112 status-line,
+   plus the documented tolerances of the relaxed parser); the regenerated tables are proved
+   equal to these below, so a change of a magic or of a character set in the code breaks
+   the proof. *)
+Definition lit_http1 : bytes := [72;84;84;80;47;49;46].            (* "HTTP/1." *)
+Definition lit_icy : bytes := [73;67;89;32].                       (* "ICY " *)
+Definition is_delim (relaxed : bool) (c : N) : bool :=             (* SP; relaxed: SP HTAB VT FF CR *)
+  if relaxed then (c =? 32) || (c =? 9) || (c =? 11) || (c =? 12) || (c =? 13) else (c =? 32).
+Definition is_phrase (c : N) : bool :=                             (* HTAB / SP / VCHAR / obs-text *)
+  (c =? 9) || (c =? 32) || ((33 <=? c) && (c <=? 126)) || ((128 <=? c) && (c <=? 255)).
+Definition dval (c : N) : N := c - 48.
+Definition is_eol (relaxed : bool) (e : bytes) : Prop :=           (* CRLF; relaxed: also bare LF *)
+  e = [13;10] \/ (relaxed = true /\ e = [10]).
+
+(* status-line = ("HTTP/1." DIGIT delim / "ICY ") 3DIGIT delim *phrase-char eol, 100 <= status <= 599 *)
+Inductive status_line (relaxed : bool) : bytes -> proto_t -> N -> N -> N -> bytes -> Prop :=
+| SL_http m dl1 d1 d2 d3 dl2 reason eol :
+    is_digit m = true -> is_delim relaxed dl1 = true ->
+    is_digit d1 = true -> is_digit d2 = true -> is_digit d3 = true -> is_delim relaxed dl2 = true ->
+    forallb is_phrase reason = true -> is_eol relaxed eol ->
+    100 <= 100 * dval d1 + 10 * dval d2 + dval d3 <= 599 ->
+    status_line relaxed (lit_http1 ++ m :: dl1 :: d1 :: d2 :: d3 :: dl2 :: reason ++ eol)
+                PHttp 1 (dval m) (100 * dval d1 + 10 * dval d2 + dval d3) reason
+| SL_icy d1 d2 d3 dl2 reason eol :
+    is_digit d1 = true -> is_digit d2 = true -> is_digit d3 = true -> is_delim relaxed dl2 = true ->
+    forallb is_phrase reason = true -> is_eol relaxed eol ->
+    100 <= 100 * dval d1 + 10 * dval d2 + dval d3 <= 599 ->
+    status_line relaxed (lit_icy ++ d1 :: d2 :: d3 :: dl2 :: reason ++ eol)
+                PIcy 0 0 (100 * dval d1 + 10 * dval d2 + dval d3) reason.
+
+(* ---- the regenerated tables are these sets ---- *)
+Lemma mem_tbl_high t c : lenN t <= c -> mem_tbl t c = false.
+Proof.
+  unfold mem_tbl. revert c; induction t as [|x t IH]; intros c H; cbn [tbl_get lenN] in *; [reflexivity|].
+  destruct (c =? 0) eqn:E; [apply N.eqb_eq in E; lia|]. apply IH. lia.
+Qed.
+
+Definition tables_check (c : N) : bool :=
+  Bool.eqb (cs_strict_Delimiter c) (is_delim false c) &&
+  Bool.eqb (cs_relaxed_Delimiter c) (is_delim true c) &&
+  Bool.eqb (resp_phraseChars c) (is_phrase c) &&
+  Bool.eqb (cs_LF c) (c =? 10) && Bool.eqb (cs_CR c) (c =? 13) &&
+  Bool.eqb (cs_WSP c) ((c =? 32) || (c =? 9)).
+
+Lemma tables_ok c :
+  cs_strict_Delimiter c = is_delim false c /\ cs_relaxed_Delimiter c = is_delim true c /\
+  resp_phraseChars c = is_phrase c /\ cs_LF c = (c =? 10) /\ cs_CR c = (c =? 13) /\
+  cs_WSP c = ((c =? 32) || (c =? 9)).
+Proof.
+  destruct (c <? 256) eqn:Ec.
+  - apply N.ltb_lt in Ec.
+    pose proof (forallb_bytes tables_check ltac:(vm_compute; reflexivity) c Ec) as H.
+    unfold tables_check in H. repeat (apply andb_true_iff in H; destruct H as [H ?]).
+    repeat match goal with H : Bool.eqb _ _ = true |- _ => apply Bool.eqb_prop in H end.
+    repeat split; assumption.
+  - apply N.ltb_ge in Ec.
+    unfold cs_strict_Delimiter, cs_relaxed_Delimiter, resp_phraseChars, cs_LF, cs_CR, cs_WSP.
+    rewrite !mem_tbl_high by (vm_compute lenN; exact Ec).
+    unfold is_delim, is_phrase. repeat split; symmetry; lia.
+Qed.
+
+Lemma delim_spec relaxed c : delim relaxed c = is_delim relaxed c.
+Proof. destruct relaxed; unfold delim; apply (tables_ok c). Qed.
+Lemma phrase_spec c : resp_phraseChars c = is_phrase c.
+Proof. apply (tables_ok c). Qed.
+Lemma lf_spec c : cs_LF c = (c =? 10).
+Proof. apply (tables_ok c). Qed.
+Lemma magic_http1_lit : resp_http1magic = lit_http1. Proof. reflexivity. Qed.
+Lemma magic_icy_lit : resp_icymagic = lit_icy. Proof. reflexivity. Qed.
+Lemma crlf_lit : resp_crlf = [13;10]. Proof. reflexivity. Qed.
